@@ -287,9 +287,15 @@ class FakeIptables(_Faulty):
 
 
 # --------------------------------------------------------------------------
+# file-system calls of a pass that count as preemption points (see OsProxy)
+_TRACED = frozenset(['listdir', 'scandir', 'stat', 'lstat', 'readlink',
+                     'unlink', 'remove', 'symlink', 'access'])
+
+
 class _OsPathProxy(object):
     """os.path as the module under test sees it: the existence tests go
-    through the proxied stat (as genericpath does with the real one)."""
+    through the proxied stat / lstat (as genericpath / posixpath do with the
+    real ones)."""
 
     def __init__(self, osproxy):
         self._os = osproxy
@@ -300,6 +306,12 @@ class _OsPathProxy(object):
     def _mode(self, path):
         try:
             return self._os.stat(path).st_mode
+        except (OSError, ValueError):
+            return None
+
+    def _lmode(self, path):
+        try:
+            return self._os.lstat(path).st_mode
         except (OSError, ValueError):
             return None
 
@@ -314,12 +326,27 @@ class _OsPathProxy(object):
         mode = self._mode(path)
         return mode is not None and stat.S_ISREG(mode)
 
+    def lexists(self, path):
+        return self._lmode(path) is not None
+
+    def islink(self, path):
+        mode = self._lmode(path)
+        return mode is not None and stat.S_ISLNK(mode)
+
 
 class OsProxy(object):
     """Stands for the name `os` inside one module under test.  Everything
-    is the real os, except that `stat` can be armed to fail once with a
-    given errno at its k-th call while the harness holds the window open
-    (= during one garbage_collect / initialize pass)."""
+    is the real os, except that
+
+    * `stat` can be armed to fail once with a given errno at its k-th call
+      while the harness holds the window open (= during one garbage_collect
+      / initialize pass);
+    * a *schedule* can be installed for one pass: every file-system call of
+      the pass (_TRACED) is a preemption point, and right after the k-th
+      one returned (or raised) a callback runs once - another process doing
+      its own operations on the same directories between two system calls
+      of the pass.  Calls made by the callback itself are not counted and
+      cannot hit the stat fault."""
 
     def __init__(self):
         self.path = _OsPathProxy(self)
@@ -327,18 +354,48 @@ class OsProxy(object):
         self.errno = None
         self.window = False
         self.fired = None
+        self.sched = None
 
     def __getattr__(self, name):
-        return getattr(os, name)
+        real = getattr(os, name)
+        if self.sched is not None and name in _TRACED:
+            return self._traced(real)
+        return real
+
+    def _traced(self, real):
+        def _call(*args, **kwargs):
+            try:
+                return real(*args, **kwargs)
+            finally:
+                self._tick()
+        return _call
+
+    def _tick(self):
+        sched = self.sched
+        if sched is None or sched['busy']:
+            return
+        sched['calls'] += 1
+        if sched['fn'] is not None and sched['calls'] == sched['k']:
+            callback, sched['fn'] = sched['fn'], None
+            window, self.window = self.window, False
+            sched['busy'] = True
+            try:
+                callback()
+            finally:
+                sched['busy'] = False
+                self.window = window
 
     def stat(self, path, *args, **kwargs):
-        if self.window and self.countdown is not None:
-            self.countdown -= 1
-            if self.countdown <= 0:
-                self.countdown = None
-                self.fired = errno.errorcode[self.errno]
-                raise OSError(self.errno, os.strerror(self.errno), path)
-        return os.stat(path, *args, **kwargs)
+        try:
+            if self.window and self.countdown is not None:
+                self.countdown -= 1
+                if self.countdown <= 0:
+                    self.countdown = None
+                    self.fired = errno.errorcode[self.errno]
+                    raise OSError(self.errno, os.strerror(self.errno), path)
+            return os.stat(path, *args, **kwargs)
+        finally:
+            self._tick()
 
     def arm(self, code, k):
         self.errno = code
@@ -351,6 +408,17 @@ class OsProxy(object):
         self.countdown = None
         self.window = False
         return fired
+
+    def schedule(self, k, callback):
+        """Run `callback` once after the k-th (k >= 1) traced call made from
+        now on; returns the schedule (its 'calls' counts the traced calls,
+        its 'fn' is None once the callback ran)."""
+        self.sched = {'k': max(1, k), 'calls': 0, 'fn': callback,
+                      'busy': False}
+        return self.sched
+
+    def unschedule(self):
+        self.sched = None
 
 
 def scratch_base():
@@ -427,6 +495,8 @@ class Engine(object):
         self.gen = [0] * NSLOTS          # current generation of each slot
         self.live = set()                # unique names whose dir exists
         self.seen = set()                # unique names that ever existed
+        self.newest = None               # slot of the container started last
+        self.race = None                 # state of a pass run with a schedule
 
         # reference models: key -> owner unique name
         self.model = {'vip': {}, 'rule': {}, 'ep': {}, 'svc': {}}
@@ -528,11 +598,20 @@ class Engine(object):
     def owner_of(self, op):
         """Unique name the op acts as: the slot's current generation, or the
         previous one with 'old' (a finishing container of the same slot)."""
-        slot = op['o']
+        slot = self.slot_of(op)
         gen = self.gen[slot]
-        if op.get('old') and gen > 0:
+        if op.get('old') and gen > 0 and not op.get('new'):
             gen -= 1
         return unique_name(slot, gen)
+
+    def slot_of(self, op):
+        """'new': true -> the op is issued by the container that started
+        last (runtime/linux/_run.py: a starting container allocates its
+        address, rules and endpoint specs right after its directory was
+        made); otherwise the slot the op names."""
+        if op.get('new') and self.newest is not None:
+            return self.newest
+        return op['o']
 
     def acting(self, comp, op, key):
         """'who': 'holder' -> act as whoever holds `key` (aimed at owner
@@ -638,6 +717,7 @@ class Engine(object):
             os.mkdir(os.path.join(self.apps, cur))
             self.seen.add(cur)
             self.live.add(cur)
+            self.newest = slot
         self._unchanged('own')
 
     def _own_down(self, op):
@@ -728,22 +808,32 @@ class Engine(object):
             self.count('fsfault.not-reached.%s' % comp)
         return fired
 
-    def _collect(self, comp, opname, call, expected, hints):
+    def _collect(self, comp, opname, call, expected, hints, race=None):
         """One garbage_collect / initialize pass.  `expected` is what a
         complete pass leaves.  A pass whose stat failed (it normally
         raises) may have removed any subset of what a complete pass removes
-        - and nothing else: never an entry whose owner exists."""
+        - and nothing else: never an entry whose owner exists.
+
+        `race` (a gcrace op): the pass runs with a schedule, see
+        _race_open."""
         proxy = self._fs_arm(comp)
+        state = self._race_open(comp, race) if race is not None else None
         fired = None
         try:
             try:
                 call()
             finally:
                 fired = self._fs_disarm(comp, proxy)
+                if state is not None:
+                    self.osp[comp].unschedule()
+                    self.race = None
         except OSError:
             if not fired:
                 raise
             self.count('fsfault.%s.pass-aborted' % comp)
+        if state is not None:
+            self._race_close(state, opname, hints, bool(fired))
+            return
         if fired:
             # (a pass that swallows the error and leaves the entry it could
             # not look up is within the envelope as well)
@@ -753,6 +843,146 @@ class Engine(object):
                 if key in expected or key in after
             }
         self.check_all(comp, opname, expected, hints)
+
+    # ---- a collection pass and another process, interleaved --------------
+    # The quantifier of C14 ranges over schedules: owners appear and
+    # disappear "at arbitrary points", which includes the points between
+    # two system calls of a collection pass (the firewall watcher, the
+    # network service and `treadmill run` / `finish` of the containers are
+    # separate processes working on the same directories).  A gcrace op
+    # runs one garbage_collect() with every file-system call of the pass
+    # as a possible preemption point; after the k-th one the burst of ops
+    # in op['do'] (a container starting: directory + its entries; a
+    # container finishing: releases + directory removed; other owners
+    # creating / releasing) is executed, then the pass goes on.
+    #
+    # Verdict.  The pass can only observe the states between the bursts
+    # (S0 = when it began, S1 = after the burst; 'more' adds further
+    # bursts and states, the generator draws one).  For one key:
+    #   must stay  - in every observable state the key was free or held by
+    #                an owner whose directory existed in that state, and it
+    #                is held in the last one: at no moment was there an
+    #                entry "whose owner no longer exists", so reclaiming it
+    #                is reclaiming something else (gcrace.reclaimed-live);
+    #   must go    - held by the same owner in every observable state and
+    #                that owner's directory existed in none of them
+    #                (gcrace.kept-dead);
+    #   either     - everything else (the owner disappeared or came back
+    #                during the pass, the entry of a vanished owner changed
+    #                hands): the pass may have looked before or after.
+    _RACE_OPS = {
+        'own': ('up', 'down'),
+        'vip': ('alloc', 'free'),
+        'rule': ('create', 'unlink'),
+        'ep': ('create', 'unlink', 'unlink_all'),
+    }
+
+    def _race_open(self, comp, op):
+        model = self.model[comp]
+        dead = {key: own for key, own in model.items()
+                if own not in self.live}
+        state = {
+            'comp': comp,
+            'tainted': set(dead),    # held by a vanished owner at some point
+            'drop': dict(dead),      # ... by the same one at every point
+            'fired': 0,
+        }
+        # [(k, burst)]: the first burst after call #k of the pass, each
+        # further one ('more') k calls after the previous burst
+        queue = [(op.get('k', 1), op.get('do') or [])]
+        for nxt in op.get('more') or []:
+            queue.append((nxt.get('k', 1), nxt.get('do') or []))
+        for _k, burst in queue:
+            for one in burst:
+                if one['mgr'] not in ('own', comp) or \
+                        one['op'] not in self._RACE_OPS[one['mgr']]:
+                    raise ValueError('op %r cannot run inside a %s pass'
+                                     % (one, comp))
+        state['queue'] = queue
+        state['bursts'] = [burst for _k, burst in queue]
+        state['sched'] = self.osp[comp].schedule(
+            queue[0][0], lambda: self._race_burst(state))
+        self.race = state
+        self.count('race.%s.passes' % comp)
+        return state
+
+    def _race_reconcile(self, state):
+        """Take out of the model what the pass has reclaimed so far; it may
+        only have touched keys a vanished owner held at some point."""
+        comp = state['comp']
+        model = self.model[comp]
+        actual = read_links(self.dirs[comp])
+        kept = {}
+        for key in sorted(model):
+            if key in actual:
+                kept[key] = model[key]
+            elif key in state['tainted']:
+                state['drop'].pop(key, None)
+                self.count('race.%s.reclaimed-before-burst' % comp)
+            else:
+                raise Violation(
+                    'c14.%s.gcrace.reclaimed-live' % comp,
+                    '%s entry %r of owner %r (directory exists, and existed '
+                    'whenever the entry did) was reclaimed by a collection '
+                    'pass interleaved with %r (burst %d of them ran)'
+                    % (comp, key, model[key], state['bursts'],
+                       state['fired']))
+        self.model[comp] = kept
+
+    def _race_burst(self, state):
+        """The other process runs (called from inside the pass)."""
+        comp = state['comp']
+        sched = state['sched']
+        at_call, burst = state['queue'].pop(0)
+        state['fired'] += 1
+        self.flags['race'] = True
+        self.count('race.%s.fired.k%d' % (comp, min(at_call, 9)))
+        if state['fired'] > 1:
+            self.count('race.%s.fired.second-burst' % comp)
+        self._race_reconcile(state)
+        for one in burst:
+            self.apply(one)
+        self._race_observe(state)
+        if state['queue']:
+            sched['calls'] = 0
+            sched['k'] = max(1, state['queue'][0][0])
+            sched['fn'] = lambda: self._race_burst(state)
+
+    def _race_observe(self, state):
+        """A new observable state: update what the pass may / must do."""
+        model = self.model[state['comp']]
+        for key, own in model.items():
+            if own not in self.live:
+                state['tainted'].add(key)
+        for key, own in sorted(state['drop'].items()):
+            if model.get(key) != own or own in self.live:
+                del state['drop'][key]
+
+    def _race_close(self, state, opname, hints, fs_fired):
+        comp = state['comp']
+        model = self.model[comp]
+        actual = read_links(self.dirs[comp])
+        expected = {}
+        for key, own in model.items():
+            if key in state['drop'] and not fs_fired:
+                continue                       # must go
+            if key in state['tainted'] and key not in actual:
+                self.count('race.%s.either-reclaimed' % comp)
+                continue                       # either
+            if key in state['tainted'] and own in self.live:
+                self.count('race.%s.either-kept' % comp)
+            expected[key] = own                # must stay (or stayed)
+        if state['fired'] and any(
+                key not in state['tainted'] and key in expected
+                for key in model):
+            self.count('race.%s.live-entries-at-stake' % comp)
+        self.check_all(comp, opname, expected, hints)
+        for _k, burst in state['queue']:
+            # the pass was over before that call: the other process runs
+            # after it
+            self.count('race.%s.not-reached' % comp)
+            for one in burst:
+                self.apply(one)
 
     # ---- VipMgr -------------------------------------------------------
     def _pool(self, op):
@@ -866,6 +1096,12 @@ class Engine(object):
         self._collect('vip', 'gc', pool.garbage_collect, expected,
                       self._GC_HINTS)
 
+    def _vip_gcrace(self, op):
+        pool, _net = self._pool(op)
+        self._gc_expected('vip')
+        self._collect('vip', 'gcrace', pool.garbage_collect, None,
+                      self._GC_HINTS, race=op)
+
     def _vip_init(self, op):
         pool, net = self._pool(op)
         expected = {
@@ -943,6 +1179,11 @@ class Engine(object):
         self._collect('rule', 'gc', self.rules.garbage_collect, expected,
                       self._GC_HINTS)
 
+    def _rule_gcrace(self, op):
+        self._gc_expected('rule')
+        self._collect('rule', 'gcrace', self.rules.garbage_collect, None,
+                      self._GC_HINTS, race=op)
+
     def _rule_init(self, _op):
         self._collect('rule', 'init', self.rules.initialize, {},
                       {'extra': 'kept'})
@@ -958,7 +1199,7 @@ class Engine(object):
         spec; 'who'='holder' may take any spec (the op then acts for the
         slot that spec belongs to), otherwise only specs carrying the
         appname of the op's own slot qualify."""
-        slot, idx = op['o'], op.get('s', 0) % len(SPECS)
+        slot, idx = self.slot_of(op), op.get('s', 0) % len(SPECS)
         model = self.model['ep']
         if op.get('sel') is not None and model:
             if op.get('who') == 'holder':
@@ -976,12 +1217,13 @@ class Engine(object):
         owner = self.owner_of(op)
         model = self.model['ep']
         _slot, idx = self._ep_select(op)
-        key = spec_key(op['o'], idx)
+        mine = self.slot_of(op)
+        key = spec_key(mine, idx)
         holder = model.get(key)
         expected = dict(model)
         try:
             self.eps.create_spec(owner=os.path.join(self.apps, owner),
-                                 **self._ep_args(op['o'], idx))
+                                 **self._ep_args(mine, idx))
         except Exception as err:  # pylint: disable=broad-except
             if holder is None:
                 raise Violation(
@@ -1002,7 +1244,7 @@ class Engine(object):
                     % (key, owner, holder))
             self.count('ep.create.repeat' if holder else 'ep.create.ok')
             expected[key] = owner
-            self.ep_meta[key] = (op['o'], idx)
+            self.ep_meta[key] = (mine, idx)
         self.check_all('ep', 'create', expected, {'changed': 'double-owner'})
 
     def _ep_unlink(self, op):
@@ -1064,6 +1306,13 @@ class Engine(object):
             'ep', 'gc',
             lambda: self._endpoints.garbage_collect(self.dirs['ep']),
             expected, self._GC_HINTS)
+
+    def _ep_gcrace(self, op):
+        self._gc_expected('ep')
+        self._collect(
+            'ep', 'gcrace',
+            lambda: self._endpoints.garbage_collect(self.dirs['ep']),
+            None, self._GC_HINTS, race=op)
 
     def _ep_init(self, _op):
         self._collect('ep', 'init', self.eps.initialize, {},
